@@ -19,6 +19,7 @@ Decides:
 Not decided: that the search picks the cheapest pin; numeric end-point equality after moves.
 """
 import copy
+import re
 from fractions import Fraction
 
 from ..astq import (strip, strip_casts, calls, call_args, call_object, writes, written_field, norm, literal_value, src,
@@ -651,6 +652,54 @@ def rule_checkpoints_on_segment(chk, prog):
                                              "returns the checkpoints with codes %s, expected %s" % (got, want))
 
 
+def rule_endpoint_takes_connend(chk, prog):
+    r = chk.rule("ENDPOINT-TAKES-NEW-CONNEND", "ConnRef::common_updateEndPoint: whenever the new end is a pin / junction connection, the connector's "
+                 "m_src_connend (m_dst_connend) becomes a fresh copy of the GIVEN ConnEnd -- under no condition other than the end type and "
+                 "connEnd.isPinConnection(), and after the old one has been disconnected and freed; keeping the old ConnEnd because `the shape "
+                 "is the same` keeps the old pin class as well", floor=2)
+    fn = prog.fn("Avoid::ConnRef::common_updateEndPoint")
+    pname = fn.params[1]["name"] if len(fn.params) > 1 else "connEnd"
+    for fld in ("Avoid::ConnRef::m_src_connend", "Avoid::ConnRef::m_dst_connend"):
+        r.count()
+        news = [node for lhs, node, op in writes(fn) if written_field(lhs)[0] == fld and op == "=" and any(
+            x.get("k") == "CXXNewExpr" for x in walk(node["ch"][1]))]
+        bad = None
+        if not news:
+            bad = "%s is never given a copy of the new ConnEnd" % fld.split("::")[-1]
+        else:
+            n0 = news[0]
+            ctor = [x for x in walk(n0["ch"][1]) if x.get("k") == "CXXConstructExpr"]
+            if not ctor or pname not in norm(ctor[0]):
+                bad = "the stored ConnEnd is not a copy of the given one"
+            ats = [a for a in atoms(path_condition(fn, n0, inline=False)) if "VertID::src" not in a and a != "%s.isPinConnection()" % pname]
+            if ats:
+                bad = bad or "the new ConnEnd is stored only under %s" % sorted(ats)
+            dis = [c for c in calls(fn) if c.get("cname") == "Avoid::ConnEnd::disconnect" and fld.split("::")[-1] in norm(call_object(c))]
+            if dis:
+                dats = [a for a in atoms(path_condition(fn, dis[0], inline=False)) if "VertID::src" not in a and a != fld.split("::")[-1]]
+                if dats:
+                    bad = bad or "the old ConnEnd is disconnected only under %s" % sorted(dats)
+        (r.bad if bad else r.ok)(fld.split("::")[-1], fn.loc(news[0]) if news else fn.where(), bad or "")
+
+
+def rule_pin_by_vertex(chk, prog):
+    r = chk.rule("ACTIVE-PIN-BY-VERTEX", "ConnEnd::usePinVertex records as the active pin the pin whose vertex IS the vertex the route went through "
+                 "(pointer identity with the parameter): usePin(pin) is reached only under `pin->m_vertex == pinVert` -- several pins of a "
+                 "class may share one position (four exclusive directional pins at a shape's centre), and matching by class and position "
+                 "marks the wrong one as used, so the used pin still looks free", floor=1)
+    fn = prog.fn("Avoid::ConnEnd::usePinVertex")
+    pname = fn.params[0]["name"]
+    us = [c for c in calls(fn) if c.get("cname") == "Avoid::ConnEnd::usePin"]
+    if not us:
+        raise AnalysisBroken("usePinVertex: usePin not called")
+    r.count()
+    ats = [a for a in atoms(path_condition(fn, us[0], inline=False)) if ".end()" not in a]
+    ident = [a for a in ats if re.match(r"^\(\w+\.m_vertex == %s\)$|^\(%s == \w+\.m_vertex\)$" % (pname, pname), a)]
+    ok = bool(ident) and entails(path_condition(fn, us[0], inline=False), ("atom", ident[0]))
+    (r.ok if ok else r.bad)("usePinVertex", fn.loc(us[0]), "" if ok else
+                            "the pin marked as used is chosen under %s, not by identity of its vertex with the vertex of the route" % sorted(ats))
+
+
 def rule_improver_checkpoints(chk, prog):
     r = chk.rule("IMPROVER-KEEPS-CHECKPOINTS", "the hyperedge improver (on by default) rewrites the display routes of all connectors attached to "
                  "junctions from its own tree: to keep a connector's checkpoints on its route it has to read them -- some function of "
@@ -674,6 +723,8 @@ def rule_improver_checkpoints(chk, prog):
 def run(chk):
     prog = chk.load()
     chk.guard(rule_improver_checkpoints, chk, prog)
+    chk.guard(rule_endpoint_takes_connend, chk, prog)
+    chk.guard(rule_pin_by_vertex, chk, prog)
     chk.guard(rule_checkpoints_on_segment, chk, prog)
     chk.guard(rule_pin_offer, chk, prog)
     chk.guard(rule_pin_offer_twins, chk, prog)
